@@ -658,10 +658,8 @@ static void child_next_message(struct vk_child *c)
   free(buf);
   c->have_hello = 1;
   c->state = CH_RUNNING;
-  for (int s = 1; s < 65; s++) {
-    c->disp[s] = (c->hello.ign >> s) & 1 ? 'I' : (c->hello.cgt >> s) & 1 ? 'H' : 'D';
-    if (s >= 64) c->disp[s] = 'D';
-  }
+  for (int s = 1; s < 64; s++) c->disp[s] = (c->hello.ign >> s) & 1 ? 'I' : (c->hello.cgt >> s) & 1 ? 'H' : 'D';
+  c->disp[64] = 'D';
   vk_log("  child %d hello pid=%d image=%d argc=%d nfd=%d", c->idx, c->hello.pid, c->hello.image, c->hello.argc,
          c->hello.nfd);
   /* setup steps run at once */
